@@ -254,7 +254,8 @@ def suite_mapping(tier):
                 coup_sets += [(p, q) for p in pairs for q in pairs if p != q][:: (1 if tier == 'thorough' else 5)]
                 for coup in coup_sets:
                     for rt in (1, 2):
-                        own = [d for d in (0, 1, 2) if mine()]
+                        # every pattern of unused floors (a floor-less channel coupled along a chain of steps must still carry residue)
+                        own = [d for d in range(1 << ch) if mine()]
                         if not own:
                             continue
                         s = vsynth.base_setup(channels=ch, bs0=64, bs1=128, restype=rt)
